@@ -247,6 +247,18 @@ package blob
 //@   requires b != nil
 //@   ensures result <==> bytesEq(b.Commitment, com)
 
+// C11: "fetching by commitment returns that blob iff the block contains it under that namespace". Each call
+// makes its own retrieval, for the height and the namespace it was asked for, with a parser that accepts exactly
+// the commitment it was asked for (Get$2 below), and hands back that retrieval's outcome - no result of another
+// caller's retrieval (another namespace, another height) can be handed out in its place.
+//@ func (*Service).Get
+//@   property C11
+//@   noframe
+//@   requires s != nil && !$NDOther
+//@   havoc $NDOther $RetrieveFailed
+//@   callpre Service).retrieve: $arg0 == s && $arg2 == height && $arg3 == namespace && $arg4 != nil && isFresh($arg4)
+//@   checks err == nil ==> blob != nil
+
 //@ func (*Service).Get$2
 //@   property C11
 //@   requires blob != nil
